@@ -29,6 +29,9 @@ pub enum XOp {
     ZClone,
     ZReserve { n: i64 },
     ZDrop,
+    /// Box<[Zt]> of `len` zero-sized elements -> TryFrom into Box<[Zt; 3]>: must succeed iff len == 3,
+    /// and must hand the slice back (nothing dropped, nothing invented) otherwise
+    ZBoxTryArray { len: usize },
     // ---- Copy elements (i64 / u8)
     CNew,
     CExtendFromSliceCopy { vals: Vec<i64> },
@@ -137,6 +140,13 @@ macro_rules! xinterp {
                         XOp::ZClone => { self.zcall(base("zclone"), |s, ev| { if let Some(z) = s.z.as_ref() { let c = z.clone(); ev.retn = c.len() as i64; drop(c); } }); }
                         XOp::ZReserve { n } => { let mut ev = base("zreserve"); ev.a = n; self.zcall(ev, |s, _| { if let Some(z) = s.z.as_mut() { z.reserve(ub(n)); } }); }
                         XOp::ZDrop => { self.zcall(base("zdrop"), |s, _| { let z = s.z.take(); drop(z); let h = std::mem::take(&mut s.held); drop(h); }); }
+                        XOp::ZBoxTryArray { len } => {
+                            let mut ev = base("zbox_try_array"); ev.a = len as i64;
+                            self.zcall(ev, |s, ev| {
+                                let items: Vec<Zt> = { let _g = rec::pause(); (0..len).map(|_| Zt::new()).collect() };
+                                ev.retn = zbox_try!($modname, s.bump, items);
+                            });
+                        }
                         XOp::CNew => { self.ccall(base("cnew"), |s, _| { s.c = Some(cnew!($modname, s.bump)); }); }
                         XOp::CPush { val } => { let mut ev = base("cpush"); ev.vals = vec![val]; self.ccall(ev, |s, _| { if let Some(c) = s.c.as_mut() { c.push(val); } }); }
                         XOp::CExtendFromSliceCopy { vals } => { let mut ev = base("extend_from_slice_copy"); ev.vals = vals.clone(); self.ccall(ev, |s, _| { if let Some(c) = s.c.as_mut() { cext!($modname, c, &vals[..]); } }); }
@@ -184,6 +194,18 @@ macro_rules! xinterp {
         }
     };
 }
+macro_rules! zbox_try {
+    (bx, $b:expr, $items:expr) => {{
+        let sl: bumpalo::boxed::Box<[Zt]> = bumpalo::boxed::Box::from_iter_in($items.into_iter(), $b);
+        let r: Result<bumpalo::boxed::Box<[Zt; 3]>, bumpalo::boxed::Box<[Zt]>> = std::convert::TryFrom::try_from(sl);
+        match r { Ok(a) => { drop(a); 1 } Err(orig) => { let n = orig.len() as i64; drop(orig); -n } }
+    }};
+    (sx, $b:expr, $items:expr) => {{
+        let sl: std::boxed::Box<[Zt]> = $items.into_iter().collect();
+        let r: Result<std::boxed::Box<[Zt; 3]>, std::boxed::Box<[Zt]>> = std::convert::TryFrom::try_from(sl);
+        match r { Ok(a) => { drop(a); 1 } Err(orig) => { let n = orig.len() as i64; drop(orig); -n } }
+    }};
+}
 macro_rules! znew { (bx, $b:expr, $cap:expr) => { if $cap < 0 { BVec::new_in($b) } else { BVec::with_capacity_in(ub($cap), $b) } }; (sx, $b:expr, $cap:expr) => { if $cap < 0 { Vec::new() } else { Vec::with_capacity(ub($cap)) } }; }
 macro_rules! cnew { (bx, $b:expr) => { BVec::new_in($b) }; (sx, $b:expr) => { Vec::new() }; }
 macro_rules! cnewb { (bx, $b:expr) => { BVec::new_in($b) }; (sx, $b:expr) => { Vec::new() }; }
@@ -228,6 +250,7 @@ pub fn by_name(name: &str, tier: &str, seed: u64) -> Vec<XProgram> {
                 }
                 for r in rgs(len) { ops.push(XOp::ZDrain { r, take: 0 }); ops.push(XOp::ZDrain { r, take: 1 }); }
                 for f in 0..3 { for b in 0..3 { ops.push(XOp::ZIntoIter { front: f, back: b }); } }
+                for n in [0usize, 2, 3, 4, 7] { ops.push(XOp::ZBoxTryArray { len: n }); }
                 for op in ops {
                     let mut p = vec![XOp::ZNew { cap: if len % 2 == 0 { -1 } else { 4 } }];
                     for _ in 0..len { p.push(XOp::ZPush); }
